@@ -204,12 +204,20 @@ func realDecode(raw json.RawMessage) any {
 	return map[string]any{"ok": core.EncodeVal(res)}
 }
 
+// crashVerdict: a process death is reported; a missed watchdog is skipped (it is machine load or a C01 matter, never a C03 verdict).
+func crashVerdict(real json.RawMessage) *core.Verdict {
+	if core.Class(real) == "hang" {
+		return core.Skip("no answer within the watchdog")
+	}
+	return core.CrashVerdict(real)
+}
+
 // classJudge compares outcomes; for a panic only the site is compared (the message is not modelled).
 func classJudge(what string) func(args, real, drv json.RawMessage) *core.Verdict {
 	return func(args, real, drv json.RawMessage) *core.Verdict {
 		cr, cd := core.Class(real), core.Class(drv)
 		if cr == "fatal" || cr == "hang" {
-			return core.CrashVerdict(real)
+			return crashVerdict(real)
 		}
 		if cr == "panic" {
 			var r, d struct {
@@ -234,7 +242,7 @@ func classJudge(what string) func(args, real, drv json.RawMessage) *core.Verdict
 func canonicalJudge(args, real, drv json.RawMessage) *core.Verdict {
 	cr := core.Class(real)
 	if cr == "fatal" || cr == "hang" {
-		return core.CrashVerdict(real)
+		return crashVerdict(real)
 	}
 	var d struct {
 		Ok    json.RawMessage
@@ -773,7 +781,7 @@ func init() {
 		},
 		DriverOp: "c03.portSpec",
 		Judge: func(args, real, drv json.RawMessage) *core.Verdict {
-			if v := core.CrashVerdict(real); v != nil {
+			if v := crashVerdict(real); v != nil {
 				return v
 			}
 			var a struct{ Ast portA }
@@ -833,7 +841,7 @@ func init() {
 		},
 		DriverOp: "c03.volSpec",
 		Judge: func(args, real, drv json.RawMessage) *core.Verdict {
-			if v := core.CrashVerdict(real); v != nil {
+			if v := crashVerdict(real); v != nil {
 				return v
 			}
 			var a struct{ Ast volA }
@@ -895,7 +903,7 @@ func init() {
 		},
 		DriverOp: "c03.devSpec",
 		Judge: func(args, real, drv json.RawMessage) *core.Verdict {
-			if v := core.CrashVerdict(real); v != nil {
+			if v := crashVerdict(real); v != nil {
 				return v
 			}
 			var r struct {
@@ -926,9 +934,12 @@ func init() {
 	})
 
 	core.Register("c03.shortLong", &core.CheckDef{
-		Real: realPair, Timeout: 20 * time.Second,
+		Real: realPair, Timeout: 180 * time.Second,
 		Judge: func(args, real, drv json.RawMessage) *core.Verdict {
-			if v := core.CrashVerdict(real); v != nil {
+			if core.Class(real) == "hang" {
+				return core.Skip("no answer within the watchdog (machine load); termination is property C01") // never a C03 verdict
+			}
+			if v := crashVerdict(real); v != nil {
 				return v
 			}
 			var a pairArgs
@@ -960,9 +971,12 @@ func init() {
 		},
 	})
 	core.Register("c03.nearmiss", &core.CheckDef{
-		Real: realPair, Timeout: 20 * time.Second,
+		Real: realPair, Timeout: 180 * time.Second,
 		Judge: func(args, real, drv json.RawMessage) *core.Verdict {
-			if v := core.CrashVerdict(real); v != nil {
+			if core.Class(real) == "hang" {
+				return core.Skip("no answer within the watchdog (machine load); termination is property C01") // never a C03 verdict
+			}
+			if v := crashVerdict(real); v != nil {
 				return v
 			}
 			var a pairArgs
